@@ -247,3 +247,6 @@ Theorem C02_as_rchunks_concat : forall (A : Type) (l : list A) N, 1 <= N ->
   let '(r, c) := std_as_rchunks (zlen l) N in sub l r ++ sub l (chunks_flat N c) = l.
 Proof. exact @as_rchunks_concat. Qed.
 Print Assumptions C02_as_rchunks_concat.
+Print Assumptions C02_hyp_u16.
+Print Assumptions C02_hyp_zst_max_len.
+Print Assumptions C02_hyp_width_1.
